@@ -30,4 +30,5 @@ let () =
   | "c02v" -> per_line M_c02.vline
   | "cdir" -> per_line M_cdir.line
   | "cvol" -> per_line M_cvol.line
+  | "csess" -> per_line M_csess.line
   | _ -> prerr_endline ("unknown mode " ^ mode); exit 2
